@@ -9,6 +9,7 @@ import (
 	"strconv"
 	"strings"
 	"time"
+	"unicode"
 
 	astisub "github.com/asticode/go-astisub"
 
@@ -106,7 +107,7 @@ func allForests() [][]int {
 	return o
 }
 
-var allTexts = []string{"x", "a b", " lead", "trail ", "7", "&", "<", "a<b", "&amp;", "a\u00a0b", "\u00e9", "e\u0301", "\U0001F600", "a\tb", "]]>", "\ufffc", "a>b", `"q"`, "it's", " ", "  two  ", "\u00a0"}
+var allTexts = []string{"x", "a b", " lead", "trail ", "7", "&", "<", "a<b", "&amp;", "a\u00a0b", "\u00e9", "e\u0301", "\U0001F600", "a\tb", "]]>", "\ufffc", "a>b", `"q"`, "it's", " ", "  two  ", "\u00a0", "\u00a0x", "\u3000x"}
 
 var allShapes = [][]int{{1}, {1, 1}, {2}, {0, 1}, {1, 0}, {1, 0, 1}, {1, 1, 1}, {2, 2}, {1, 2}, {2, 1}, {0}}
 
@@ -313,6 +314,9 @@ func gen(x *explore.C, p *profile) Case {
 			c.End = c.Begin.Add(ttml.Frames(1, d.FrameRate))
 		case 5:
 			c.End = c.Begin.Add(ttml.Ticks(1, d.TickRate))
+		}
+		if len(syntaxes(c.End, d.FrameRate, d.TickRate)) == 0 {
+			c.End = c.Begin.AddMs(1000) // a frame-based begin plus a tick (or the reverse) may be inexpressible in every syntax
 		}
 		c.Style = styleRef("cue.style")
 		if p.forceRefs {
@@ -792,6 +796,33 @@ func sharedParentPattern(d ttml.Doc, diffs []ttml.Diff) bool {
 	return n > 0 && n == len(want)
 }
 
+// nonXMLSpacePattern: the observed lines are the expected ones with the leading Unicode-but-not-XML
+// white space (U+00A0, U+3000 ...) removed from bare runs that start a raw line of the paragraph.
+func nonXMLSpacePattern(cs Case, df ttml.Diff) bool {
+	k, err := strconv.Atoi(df.ID)
+	if err != nil || k >= len(cs.Doc.Cues) || k >= len(cs.Render.Bare) {
+		return false
+	}
+	c := cs.Doc.Cues[k]
+	var lines []string
+	first, hit := true, false
+	for li, l := range c.Lines {
+		var nl ttml.Line
+		for ri, run := range l {
+			if li < len(cs.Render.Bare[k]) && ri < len(cs.Render.Bare[k][li]) && cs.Render.Bare[k][li][ri] && ttml.BareOK(run, cs.Render, first) && ttml.StartsRawLine(cs.Render, first) {
+				if t := strings.TrimLeftFunc(run.Text, unicode.IsSpace); t != run.Text {
+					run.Text = t
+					hit = true
+				}
+			}
+			first = false
+			nl = append(nl, run)
+		}
+		lines = append(lines, ttml.CanonLine(nl))
+	}
+	return hit && strings.Join(lines, " / ") == df.Got
+}
+
 // classify groups the differences of one case by narrow key; prefix is "ttml.read" or "ttml.write.self".
 func classify(cs Case, diffs []ttml.Diff, prefix string) map[string][]ttml.Diff {
 	out := map[string][]ttml.Diff{}
@@ -806,6 +837,10 @@ func classify(cs Case, diffs []ttml.Diff, prefix string) map[string][]ttml.Diff 
 		case "style.parent":
 			if shared {
 				key = prefix + ".shared-parent-link-lost"
+			}
+		case "cue.lines":
+			if nonXMLSpacePattern(cs, df) {
+				key = prefix + ".non-xml-space-stripped-as-indentation"
 			}
 		}
 		if key == "" {
